@@ -32,12 +32,27 @@ def one(a):
 
 
 def main():
-    args = [a for a in sys.argv[1:] if a != "-v"]
+    args = [a for a in sys.argv[1:] if a not in ("-v", "--result")]
     verbose = "-v" in sys.argv
+    as_result = "--result" in sys.argv   # print in the format of seeded/<id>/checks_result.txt (one line per alarming property + JSON)
     patch = args[0]
     props = args[1:] or ALL
     with ProcessPoolExecutor(max_workers=min(16, len(props))) as ex:
         res = list(ex.map(one, [(patch, p, verbose) for p in props]))
+    if as_result:
+        caught, silent, errs = [], [], []
+        for prop, status, bad in res:
+            if status == "ok" and bad:
+                caught.append(prop)
+                print("%s exit=1 %s " % (prop, "; ".join(k for k, _, _, _ in bad[:6])))
+            elif status != "ok":
+                errs.append(prop)
+                print("%s %s" % (prop, status[:300]))
+            else:
+                silent.append(prop)
+        print("silent:", " ".join(silent))
+        print(json.dumps({"patch": patch.replace(os.path.dirname(os.path.dirname(os.path.abspath(__file__))) + "/", ""), "caught_by": caught, "analysis_errors": errs}))
+        return
     silent = []
     for prop, status, bad in res:
         if status == "ok" and not bad:
